@@ -249,6 +249,11 @@ def main():
             T.append('expect("%s positional + keyword", lambda: k.scale_%s(2, offset=5), 25)' % (n, n))
             T.append('raises("%s wrong keyword name", lambda: k.scale_%s(offset=3), "TypeError")' % (n, n))
             T.append('raises("%s unknown keyword", lambda: k.scale_%s(nothing=3), "TypeError")' % (n, n))
+            # coercion: an object parameter takes an instance; a non-explicit constructor may convert an argument, an explicit one never does
+            T.append('expect("%s explicit constructor called directly", lambda: (M.%s("abcd").get_v_%s(), M.%s("ab", 5).get_v_%s()), (4, 7))' % (n, n, n, n, n))
+            T.append('expect("%s object argument", lambda: k.take_%s(o2), o2.get_v_%s())' % (n, n, n))
+            T.append('raises("%s explicit constructor used to convert a str argument", lambda: k.take_%s("abc"), "TypeError")' % (n, n))
+            T.append('raises("%s explicit constructor used to convert a tuple argument", lambda: k.take_%s(("abc", 2)), "TypeError")' % (n, n))
             T.append('del o2')
             T.append('cv2 = k.cself_%s()' % n)
             for s in c['ovsets']:
@@ -318,6 +323,16 @@ def main():
                                                                                            val(req, [60 + i for i in range(len(dd['defaults']))])))
                 if dd['nreq']:
                     T.append('raises("%s.%s too few", lambda: k.%s(), "TypeError")' % (n, dd['name'], dd['name']))
+        # item assignment on a fixed-size sequence: every index from -size-1 to size+1
+        T.append('b = M.Buf()')
+        T.append('expect("sequence read", lambda: (len(b), list(b)), (4, [10, 11, 12, 13]))')
+        T.append('b[1] = 99')
+        T.append('expect("item assignment", lambda: (b[1], list(b)), (99, [10, 99, 12, 13]))')
+        for ix in (4, 5, 100):
+            T.append('raises("item assignment at index %d of a sequence of 4", lambda: b.__setitem__(%d, 1), "IndexError")' % (ix, ix))
+            T.append('raises("item read at index %d of a sequence of 4", lambda: b[%d], "IndexError")' % (ix, ix))
+        T.append('expect("nothing written outside the sequence", lambda: (b.guard(), list(b)), (777, [10, 99, 12, 13]))')
+        T.append('del b')
         # conversions
         for fn, good, over in [('echo_int', [0, -2 ** 31, 2 ** 31 - 1], [2 ** 31, -2 ** 31 - 1]), ('echo_ll', [-2 ** 63, 2 ** 63 - 1], [2 ** 63]), ('echo_u8', [0, 255], [256, -1]),
                                ('echo_i16', [-32768, 32767], [32768, -32769]), ('echo_u32', [0, 2 ** 32 - 1], [2 ** 32, -1])]:
